@@ -8,10 +8,21 @@ from harness.tlc import run_tlc, MachineryError
 PID = "C15"
 
 
+_COMB = {}
+
+
 def work(cases):
     from cspuz import problem_serializer as PS
-    from harness.ser_terms import build, to_py, to_json
+    from harness.ser_terms import build as build_fresh, to_py, to_json
     out = []
+
+    def build(term):
+        # one combinator object per term and worker process, used for every board and value of that term
+        # (the way the puzzle modules use their module-level *_COMBINATOR objects): a combinator has no history
+        k = json.dumps(term, sort_keys=True)
+        if k not in _COMB:
+            _COMB[k] = build_fresh(term)
+        return _COMB[k]
     for cid, case in cases:
         rec = {"t": cid, "case": case, "ser": "ok", "des": "ok", "exc": "", "text": "", "consumed": 0, "decoded": case["v"]}
         try:
